@@ -67,7 +67,7 @@ func genPCfg(r *rng, kind string, pf pProfile) pcfg {
 	if pf.bigWin && r.chance(70) {
 		c.f["WindowSize"] = bs + r.rangeIn(0, 9)
 	}
-	if r.chance(3) {
+	if r.chance(8) {
 		// the largest windows Verify accepts (the window is independent of the buffer): offsets are
 		// computed in 32-bit types in places
 		c.f["WindowSize"] = r.pick(1<<32-8, 1<<32-9, 1<<31, 1<<31-1, 1<<31+5, 1<<32-8-bs)
@@ -328,6 +328,28 @@ func genPScript(r *rng, pf pProfile, id string, cnt counters, emit func(line, ou
 			fl := r.pick(0, 0, 1)
 			for g := 0; g < 20 && !e.dead && e.unparsed() > 0; g++ {
 				do(fmt.Sprintf("parse %d", fl))
+			}
+			continue
+		}
+		if pf.twin && r.chance(7) && e.unparsed() > 0 {
+			// directed: abandon the session directly after a block that NoTrailingLiterals truncated
+			// (positions behind the returned window head have been indexed already), then Reset with
+			// data that shares n-grams with the abandoned part
+			do("parse 1")
+			a := max(0, sp-r.rangeIn(10, 60))
+			d := append([]byte{}, stream[a:min(len(stream), a+r.rangeIn(8, min(bs, 90)))]...)
+			if len(d) > bs {
+				d = d[:bs]
+			}
+			if r.chance(50) {
+				do(fmt.Sprintf("reset %s %d", hx(d), r.pick(0, 7, 20)))
+			} else {
+				do("reset - 0")
+				do("write " + hx(d))
+			}
+			cnt.inc("p.directed.reset-after-ntl")
+			for g := 0; g < 10 && !e.dead && e.unparsed() > 0; g++ {
+				do(fmt.Sprintf("parse %d", r.pick(0, 0, 1)))
 			}
 			continue
 		}
@@ -915,7 +937,12 @@ func genPLargeWrap(r *rng, id string, cnt counters, emit func(line, out string))
 		chunks = append(chunks, resp{1 << 20, 0})
 	}
 	e1.step(fmt.Sprintf("wrap %s %s", pay, showResps(full)))
-	e2.step(fmt.Sprintf("wrap %s %s", pay, showResps(chunks)))
+	if r.chance(35) {
+		// the same stream as a concatenation of parts (a reader type with an io.Copy-based WriteTo)
+		e2.step(fmt.Sprintf("wrapm %s %d", pay, r.pick(2, 3, 5)))
+	} else {
+		e2.step(fmt.Sprintf("wrap %s %s", pay, showResps(chunks)))
+	}
 	fl := r.pick(0, 0, 1)
 	for g := 0; g < 3000 && !e1.dead && !e2.dead; g++ {
 		o1 := e1.step(fmt.Sprintf("wparse %d", fl))
